@@ -36,7 +36,11 @@ if ! git -C /repo diff --quiet; then echo "/repo is dirty, refusing" >> $LOG; ca
 git -C /repo apply $DST/patch.diff || { echo "patch does not apply to /repo" >> $LOG; cat $LOG; exit 2; }
 for c in $CHECKS; do
   s=$(date +%s)
+  # evidence committed in /verif must describe runs on /repo itself, not on a seeded tree: keep the seeded run's evidence with the seed
+  cp /verif/evidence/$c.json $DST/.evidence_$c.bak 2>/dev/null
   (cd /verif && ./check $c --tier quick > $DST/check_$c.out 2>&1); rc=$?
+  cp /verif/evidence/$c.json $DST/evidence_seeded_$c.json 2>/dev/null
+  [ -f $DST/.evidence_$c.bak ] && mv $DST/.evidence_$c.bak /verif/evidence/$c.json
   e=$(date +%s)
   echo "== ./check $c on the seeded tree: rc=$rc wall=$((e-s))s $(grep -c '^VIOLATION' $DST/check_$c.out) violation line(s): $(grep '^VIOLATION' $DST/check_$c.out | head -3 | tr '\n' ' ')" >> $LOG
   for r in $(grep '^VIOLATION' $DST/check_$c.out | sed 's/.*replay=\([^ ]*\).*/\1/'); do cp $r $DST/ 2>/dev/null; done
